@@ -160,12 +160,12 @@ func deadlineArmRule(c *Ctx, rule string, S *ssa.Function, cio *connIO, wantNs f
 		for _, r := range succ {
 			ok := false
 			for _, z := range disarms {
-				if instrDominates(z, r) && instrDominates(A.Call, z) {
+				if ff.DominatesSuccess(z, r) && instrDominates(A.Call, z) {
 					ok = true
 				}
 			}
 			for _, df := range deferred {
-				if instrDominates(df, r) {
+				if ff.DominatesSuccess(df, r) {
 					ok = true
 				}
 			}
